@@ -306,6 +306,26 @@ let run (w : string list) : string =
                        s'.M.connected_f s'.M.stream_started s'.M.stream_thread s'.M.cm.M.recv_running s'.M.dev_streaming ]))
         (s0, []) (String.split_on_char ',' calls) in
     String.concat " / " outs
+  | [ "dummy"; flags; rxpad; chans; writes ] ->
+    (* chans: en:type:vdim:div:mlen:name(cps dot separated) ; ...   writes: hex,hex,... *)
+    let mkc e = (match String.split_on_char ':' e with
+        | [ en; ty; vd; dv; ml; nm ] ->
+          { M.c_en = (en = "1"); c_type = cz_of_string ty; c_vdim = cz_of_string vd; c_div = cz_of_string dv;
+            c_mlen = cz_of_string ml; c_name = List.map (fun x -> cn_of_z (Z.of_string x)) (split '.' nm) }
+        | _ -> failwith "chan") in
+    let d0 = { M.dd_chans = List.map mkc (split ';' chans); dd_flags = cz_of_string flags;
+               dd_rxpad = cz_of_string rxpad; dd_streaming = false } in
+    let (_, outs, dead) = List.fold_left (fun (d, acc, dead) w ->
+        if dead then (d, acc, dead) else
+        match M.dummy_handle d (bytes_of_hex w) with
+        | M.Ok (d', rs) ->
+          (d', acc @ [ Printf.sprintf "[%s] en=%s div=%s st=%b" (String.concat "," (List.map hex_of_bytes rs))
+                         (string_of_bools (List.map (fun c -> c.M.c_en) d'.M.dd_chans))
+                         (string_of_zs (List.map (fun c -> c.M.c_div) d'.M.dd_chans)) d'.M.dd_streaming ], false)
+        | M.Raise w -> (d, acc @ [ "raise " ^ nospace (string_of_cstring w) ], true)
+        | M.Err _ -> (d, acc @ [ "err" ], true))
+        (d0, [], false) (String.split_on_char ',' writes) in
+    ignore dead; String.concat " / " outs
   | _ -> "driver-error unknown-command"
 
 let () =
